@@ -97,6 +97,9 @@ func (s *Solver) start() error {
 	s.declared = map[string]bool{}
 	s.ndef = 0
 	s.dead = false
+	if s.argv[0] == "cvc5" {
+		s.send("(set-logic ALL)\n")
+	}
 	s.send("(set-option :produce-models true)\n")
 	return nil
 }
